@@ -80,6 +80,20 @@ def order_insensitive_rendered_fields(chk):
     return sorted(set(out))
 
 
+def construct_name(q, fn):
+    """name of a function in finding keys: its qualified name when it is part of the public surface; for a *private* module-level helper
+    (leading underscore, no dunder) a signature built from its parameter annotations, so that renaming the helper does not turn a
+    recorded finding into a new one (and a new finding is still distinguished by its signature)."""
+    leaf = q.split(".")[-1]
+    if not leaf.startswith("_") or leaf.startswith("__"):
+        return q
+    a = fn.args
+    anns = [norm(ast.unparse(p.annotation)).strip("'\"") if p.annotation is not None else "?" for p in a.posonlyargs + a.args + a.kwonlyargs]
+    ret = norm(ast.unparse(fn.returns)).strip("'\"") if fn.returns is not None else "?"
+    owner = q.rsplit(".", 1)[0] + "." if "." in q else ""
+    return f"{owner}<private({', '.join(anns)}) -> {ret}>"
+
+
 def seeded_cache_fields(chk):
     """R10.7: a pure-cache field that is outside __eq__/__hash__ (MarkerExpression._specifier) may be *seeded* at construction only
     with the value the lazy getter would compute.  The only site where that is established is the bridge `from_specifier(name,
@@ -372,7 +386,7 @@ def run(chk):
                      f"memoised {q} reads `{ast.unparse(reads[0])}`, a field outside the cache key (__eq__/__hash__ ignore it)")
         if leaking and bad_fields:
             fld = ", ".join(f"{c}.{f}" for c, f in bad_fields)
-            chk.fail("R10.2", f"{mod}:{q}:returns-parameter-object",
+            chk.fail("R10.2", f"{mod}:{construct_name(q, fn)}:returns-parameter-object",
                      f"memoised {q} can return or embed its marker argument(s) ({', '.join(mparams)}) — e.g. `{norm(ast.unparse(leaking[0]))}`; "
                      f"the key ignores {fld}, so an equal-keyed later call receives the earlier object (its rendered text, and for operators "
                      f"without a converse its meaning, then depend on history)")
@@ -386,7 +400,7 @@ def run(chk):
             general.append("self")
         if leaking and order_fields and general:
             fld = ", ".join(f"{c}.{f}" for c, f in order_fields)
-            chk.fail("R10.2", f"{mod}:{q}:returns-parameter-object:set-element-order",
+            chk.fail("R10.2", f"{mod}:{construct_name(q, fn)}:returns-parameter-object:set-element-order",
                      f"memoised {q} can return or embed its marker argument(s) ({', '.join(general)}) — e.g. `{norm(ast.unparse(leaking[0]))}`; "
                      f"equality and hash of {fld} ignore element order while __str__ renders in that order, so an equal-keyed later call "
                      f"receives the earlier object and its rendered text depends on history")
